@@ -314,7 +314,7 @@ func c46RunSteps(t testing.TB, sys actor.ActorSystem, c c46StepCase) c45StepResu
 	}
 	defer spid.Shutdown(ctx)
 	drain := func() []int64 {
-		r, err := actor.Ask(ctx, ppid, &c45Drain{}, 5*time.Second)
+		r, err := actor.Ask(ctx, ppid, &c45Drain{}, 20*time.Second)
 		if err != nil {
 			return []int64{97}
 		}
@@ -331,7 +331,7 @@ func c46RunSteps(t testing.TB, sys actor.ActorSystem, c c46StepCase) c45StepResu
 		select {
 		case st := <-wrap.stepped:
 			return st, true
-		case <-time.After(5 * time.Second):
+		case <-time.After(20 * time.Second):
 			return nil, false
 		}
 	}
